@@ -19,7 +19,7 @@ CONSTANTS
   Seps,          \* subset of Separators
   Classes,       \* cell alphabet (names, see CellOf)
   Shapes,        \* set of shapes, a shape is 10 * columns + rows  (21 = 2 columns, 1 row)
-  HeaderKinds,   \* subset of {"plain", "nasty"}
+  HeaderKinds,   \* subset of {"plain", "nasty", "prefix", "prefixrev"}
   RenderMode,    \* "all" | "uniform" | "random" (simulation) | "none"
   Chunks,        \* chunk sizes of the modelled CEncodedStreamReader
   Devs,          \* named deviations the modelled tree has ({} = repaired)
@@ -45,11 +45,22 @@ CellOf(c, s) ==
     [] c = "blank"    -> <<32, 120, 32>>            \* leading and trailing blank (contains the separator when it is ' ')
     [] c = "mix"      -> <<QUOTE, s, LF, QUOTE>>
     [] c = "endq"     -> <<120, QUOTE>>
+    \* runs of adjacent quotes (4, 6 quote characters inside the quoted field) at the start, middle and end of a value
+    [] c = "qq"       -> <<QUOTE, QUOTE>>
+    [] c = "qqq"      -> <<QUOTE, QUOTE, QUOTE>>
+    [] c = "xqqy"     -> <<120, QUOTE, QUOTE, 121>>
+    [] c = "xqqqy"    -> <<120, QUOTE, QUOTE, QUOTE, 121>>
+    [] c = "tailqq"   -> <<120, QUOTE, QUOTE>>
+    [] c = "headqq"   -> <<QUOTE, QUOTE, 120>>
     [] c = "long"     -> [i \in 1..23 |-> 97 + (i % 26)]
 
+\* "prefix": every name is a proper prefix of the following ones (a, ab, abc, abcd); "prefixrev": the same names, longest first
+PrefixNames(n) == [j \in 1..n |-> [k \in 1..j |-> 96 + k]]
 HeaderOf(kind, n, s) ==
-  IF kind = "plain" THEN SubSeq(<< <<97>>, <<98>>, <<99>>, <<100>> >>, 1, n)
-  ELSE SubSeq(<< <<107, s, 49>>, <<113, QUOTE, 120>>, <<110, LF, 108>>, <<117, 233>> >>, 1, n)
+  CASE kind = "plain"     -> SubSeq(<< <<97>>, <<98>>, <<99>>, <<100>> >>, 1, n)
+    [] kind = "prefix"    -> PrefixNames(n)
+    [] kind = "prefixrev" -> Reverse(PrefixNames(n))
+    [] OTHER              -> SubSeq(<< <<107, s, 49>>, <<113, QUOTE, 120>>, <<110, LF, 108>>, <<117, 233>> >>, 1, n)
 
 NC == shape \div 10
 NR == shape % 10
